@@ -93,6 +93,13 @@ static uint64_t run_call(const KV &c) {
         ascon128_aead_reinit(&s, nullptr, nullptr);
         d.add("p3", lib::inc_encrypt_packet<lib::Incascon128>(&s, Bytes(), data, one, false));
         ascon128_aead_free(&s);
+        // re-initialisation of the other two session types
+        ascon128a_state_t sa; ascon80pq_state_t sp;
+        Buf k16(Bytes(key20.begin(), key20.begin() + 16)), k20(key20);
+        ascon128a_aead_init(&sa, nb.p, k16.p); ascon128a_aead_reinit(&sa, nullptr, k16.p);
+        d.add("a-re", lib::inc_encrypt_packet<lib::Incascon128a>(&sa, ad, data, one, false)); ascon128a_aead_free(&sa);
+        ascon80pq_aead_init(&sp, nb.p, k20.p); ascon80pq_aead_reinit(&sp, nb.p, nullptr);
+        d.add("p-re", lib::inc_encrypt_packet<lib::Incascon80pq>(&sp, ad, data, one, false)); ascon80pq_aead_free(&sp);
         break; }
     case G_MASKED: {
         size_t clen = 0;
@@ -301,6 +308,18 @@ static uint64_t run_call(const KV &c) {
         ascon_random_feed(&st, db.p, db.n);
         d.addi("reseed", ascon_random_reseed(&st));
         ascon_random_fetch(&st, f2.p, 33); d.add("f2", f2.bytes());
+        {
+            static unsigned char seedmem[64];
+            memset(seedmem, 0x21, sizeof seedmem);
+            ascon_storage_t sg;
+            memset(&sg, 0, sizeof sg);
+            sg.page_size = 1; sg.size = 64;
+            sg.read = [](const ascon_storage_t *, size_t off, unsigned char *p, size_t n) -> int { memcpy(p, seedmem + off, n); return (int)n; };
+            sg.write = [](const ascon_storage_t *, size_t off, const unsigned char *p, size_t n, int) -> int { if (p) memcpy(seedmem + off, p, n); return (int)n; };
+            d.addi("save", ascon_random_save_seed(&st, &sg)); d.add("seed", Bytes(seedmem, seedmem + 32));
+            d.addi("load", ascon_random_load_seed(&st, &sg)); d.add("seed2", Bytes(seedmem, seedmem + 32));
+            Buf f3(16); ascon_random_fetch(&st, f3.p, 16); d.add("f3", f3.bytes());
+        }
         ascon_random_free(&st);
         break; }
     case G_NONCE: {
